@@ -132,7 +132,9 @@ Inductive case :=
 | CBlob (i : id) (nlocs : nat) (script : list blob_resp) (obs : option id) (fetches : nat)
 | CSaved (t : ftype) (name : id) (digest : id)           (* a file written to the backend *)
 | CStoredBlob (i : id) (plain_digest : id)               (* an index entry, decoded by the harness *)
-| CSaveBlob (digest : id) (len : Z) (zeros : bool) (given : option id) (skip : bool) (obs : option id) (zero_digest : id).
+| CSaveBlob (digest : id) (len : Z) (zeros : bool) (given : option id) (skip : bool) (obs : option id) (zero_digest : id)
+| CSavedLoad (digest : id) (ret : id) (loaded : option id).
+    (* SaveBlob without a given ID returned [ret]; after the flush LoadBlob(ret) gave [loaded] (digest of the bytes) *)
     (* skip: SaveBlob reported the ID as already known (nothing stored) *)
 
 Definition nth_raw (s : list raw_resp) (k : nat) : raw_resp := nth k s (mkraw [] true).
@@ -185,12 +187,16 @@ Definition check_C02 (c : case) : bool :=
   | CSaved t name digest => is_config t || bytes_eqb name digest
   | CStoredBlob i d => bytes_eqb i d
   | CSaveBlob digest _ _ given skip obs _ =>
-      (* whatever is stored, and whatever ID restic computes itself, is the hash of the buffer *)
-      match obs, given, skip with
-      | Some i, Some _, true => true
-      | Some i, _, _ => bytes_eqb i digest
-      | None, _, _ => true
+      (* without a given ID saveBlob always succeeds with the hash of the buffer (C02_save_blob_names_hash);
+         with a caller-supplied ID whatever is actually stored is stored under the hash of the buffer *)
+      match given, obs with
+      | None, Some i => bytes_eqb i digest
+      | None, None => false
+      | Some _, Some i => if skip then true else bytes_eqb i digest
+      | Some _, None => true
       end
+  | CSavedLoad digest ret loaded =>
+      bytes_eqb ret digest && match loaded with Some d => bytes_eqb d digest | None => false end
   end.
 
 Definition fetch_bound_ok (c : case) : bool :=
@@ -218,6 +224,7 @@ Definition model_agrees (c : case) : bool :=
                    | None => if (len =? ParamsC02.chunker_min_size)%Z && zeros then zd else digest
                    end in
       option_id_eqb obs (if skip then Some newid else if bytes_eqb digest newid then Some newid else None)
+  | CSavedLoad digest ret loaded => bytes_eqb ret digest && option_id_eqb loaded (Some digest)
   end.
 
 Definition check_case (c : case) : nat :=
